@@ -372,7 +372,7 @@ def events(q, tier="quick"):
             for pk in ("same", "diffscale"):
                 ev.append(("alias_copy", al, pk))
     # ---- rescaling
-    for c in ("2.0", "0.5", "t3"):
+    for c in ("2.0", "0.5", "t3", "t1", "t11"):
         ev += [("mul", c), ("rmul", c), ("div", c)]
     ev += [("neg",), ("relu",)]
     for dtn in ("float32", "float16", "bfloat16"):
@@ -406,6 +406,10 @@ MUTATING = {"copy_into_q", "alias_copy", "idiv", "imul"}
 def _scalar(c, dtype):
     if c == "t3":
         return torch.tensor(3.0, dtype=dtype)
+    if c == "t1":
+        return torch.tensor([0.5], dtype=dtype)  # one element but 1-D: broadcasting applies, it is not a scalar
+    if c == "t11":
+        return torch.tensor([[2.0]], dtype=dtype)
     return float(c)
 
 
@@ -981,7 +985,11 @@ def bfs(ctx, which, depth, tier, pid, max_numel=64, max_rank=4):
                 continue
             for st in val:
                 if "nondeterminism" in st:
-                    raise HarnessError(f"NONDETERMINISM: state {st['init']} {st['history']} hashed {st['nondeterminism']}")
+                    # the same program, replayed on fresh objects in another process, produced a different tensor: the library's
+                    # result depends on hidden process-global state (on the unchanged tree replay is deterministic)
+                    agg.violations.append(violation(pid, {"init": st["init"], "history": st["history"], "event": None}, {"kind": which, "sub": "nondeterministic_replay", "op": st["history"][-1][0] if st["history"] else "?"},
+                                                    f"nondeterministic_replay: program {st['history']} from {st['init']} produced tensors with different content in two executions (hashes {st['nondeterminism']}): hidden state in the library"))
+                    continue
                 src = st["src"]
                 for tr in st["trans"]:
                     if tr["status"] == "skip":
